@@ -51,8 +51,12 @@ def _d1(n, x, m, rules):
     if op == 'div':
         a, b = n.args
         da, db = m[a], m[b]
+        if da is T.ZERO and db is T.ZERO:
+            return T.ZERO
         if db is T.ZERO:
             return T.div(da, b)
+        if da is T.ZERO:
+            return T.neg(T.mul(n, T.div(db, b)))
         # (a/b)' = a'/b - (a/b) b'/b
         return T.sub(T.div(da, b), T.mul(n, T.div(db, b)))
     if op == 'pow':
